@@ -81,6 +81,8 @@ PROPS = {
         ]
 },
     "C01": {
+        "model_is_reference": True,
+        "reference_note": "the Lean parser model is the formalisation of the documented grammar (accept/reject and denoted colour); a string on which pastel and the model differ is the failing input",
         "rule": "rendered syntax trees of all ten notations with every separator / blank / case / unit / number-spelling choice (integers, decimals, leading dot, trailing dot, signed, exponent forms, nan/inf spellings, 1e400), Unicode whitespace wrapping, character-level edits from a notation-specific alphabet (incl. KELVIN SIGN, NBSP, emoji), arbitrary ASCII / Unicode / lossy-bytes strings, all 148 names in three casings, a hand-written corpus; non-trivial = accepted string; distribution reports accept/reject per generator",
         "trust": [
                 "nom 7.1.3 combinators, str::trim, to_lowercase and str::parse::<f64> are modelled, validated only by the correspondence",
